@@ -256,6 +256,18 @@ func (x *Engine) nameEnv(fr *Frame, at *ssa.BasicBlock, override map[ssa.Value]V
 			}
 		}
 	}
+	// visited set of the map iteration driving this loop
+	if li := fr.loops[at]; li != nil {
+		for b := range li.blocks {
+			for _, ins := range b.Instrs {
+				if nx, ok := ins.(*ssa.Next); ok && !nx.IsString {
+					if r, ok := nx.Iter.(*ssa.Range); ok && fr.loops[b] == li {
+						hash["seen"] = Val{T: "$iter:" + x.iterKey(fr, r), Sort: x.compSortOf(x.iterKey(fr, r))}
+					}
+				}
+			}
+		}
+	}
 	// phis of the header, by variable comment
 	for _, ins := range at.Instrs {
 		phi, ok := ins.(*ssa.Phi)
@@ -543,6 +555,10 @@ func (x *Engine) writeSet(fr *Frame, li *loopInfo) (map[string]bool, map[string]
 			defer func() { keys = arb }()
 			d, v := x.mapKeys(i.Type().Underlying().(*types.Map))
 			keys[d], keys[v], keys["MapLen"] = true, true, true
+		case *ssa.Next:
+			if r, ok := i.Iter.(*ssa.Range); ok && !i.IsString && i.Parent() == fr.fn {
+				arb[x.iterKey(fr, r)] = true
+			}
 		case *ssa.MapUpdate:
 			if isFreshBase(i.Map) {
 				keys = freshOnly
